@@ -419,12 +419,52 @@ def check_tree(prog: Program, label: str, r: common.Result, mut: Optional[Tuple[
         evaluate_everywhere(files, prog, r, label, case, kindsig)
 
 
+ENV_VARIANTS = ({"KCONFIG_WARN_UNDEF": "y"}, {"KCONFIG_STRICT": "y"})
+
+
+def check_env_variant(prog: Program, label: str, r: common.Result, mut, base: str) -> None:
+    """the same tree loaded with the optional undefined-symbol diagnostics switched on (KCONFIG_WARN_UNDEF / KCONFIG_STRICT)
+    and with one reference to an undefined name, so that the diagnostic pass really walks the tree before the loop check:
+    the verdict (rejected with a dependency-loop error / accepted and evaluable) must be the one of the plain load"""
+    import copy
+
+    p2 = copy.deepcopy(prog)
+    p2.children.append(Cfg("UREF", "bool", defaults=[(L("y"), S("UNDEFINED_NAME_X"))]))
+    files = kgen.render(p2)
+    c = impl.core()
+
+    def verdict(env):
+        try:
+            inst = impl.Inst(files, env=env)
+        except c.KconfigError as e:
+            return "loop" if "ependency loop" in str(e) else "other_error:" + str(e)[:80]
+        except RecursionError:
+            return "load_recursion"
+        try:
+            inst.obs()
+            inst.config_text()
+        except RecursionError:
+            return "accepted_then_recursion"
+        except Exception as e:  # noqa: BLE001
+            return f"accepted_then_{type(e).__name__}"
+        return "accepted"
+
+    plain = verdict(None)
+    for env in ENV_VARIANTS:
+        r.evals += 1
+        v = verdict(env)
+        if v != plain:
+            r.violation({"kind": "verdict_depends_on_diagnostics_env", "env": sorted(env)[0], "plain": plain.split(":")[0], "with_env": v.split(":")[0], "edge": mut[2] if mut else "base"},
+                        f"{label} plain load: {plain}; with {env}: {v}", {"base": base, "mutation": list(mut) if mut else None, "files": files, "program": files["Kconfig"], "env": env})
+
+
 def run_item(item) -> common.Result:
     r = common.Result()
     r.programs = 1
     prog = item["prog"]
     base = item["base"]
     check_tree(prog, f"[base {base}]", r, None, base)
+    check_env_variant(prog, f"[base {base}]", r, None, base)
     names = []
     for cfg in kgen.configs(prog):
         if cfg.name not in names:
@@ -441,6 +481,8 @@ def run_item(item) -> common.Result:
             n_mut += 1
             r.programs += 1
             check_tree(p2, f"[{base} + {x} mentions {y} via {kind}]", r, (x, y, kind), base)
+            if not getattr(p2, "quirk", False):
+                check_env_variant(p2, f"[{base} + {x} mentions {y} via {kind}]", r, (x, y, kind), base)
     r.sample = {"base": base, "program": kgen.text(prog), "mutated_trees": n_mut}
     return r
 
@@ -453,6 +495,9 @@ def replay(case) -> List[dict]:
                 x, y, kind = case["mutation"]
                 prog = mutate(prog, x, y, kind)
             r = common.Result()
+            if case.get("env"):
+                check_env_variant(prog, f"[replay {case['base']} {case['mutation']}]", r, tuple(case["mutation"]) if case["mutation"] else None, case["base"])
+                return r.viols
             check_tree(prog, f"[replay {case['base']} {case['mutation']}]", r, tuple(case["mutation"]) if case["mutation"] else None, case["base"])
             return r.viols
     raise SystemExit("replay: base program not found")
